@@ -390,8 +390,15 @@ sort_function_table (program_t * prog)
 
   if (prog->type_start)
     {
+      /* permute through a copy: doing it in place reads entries that were already overwritten */
+      unsigned short *ts =
+        CALLOCATE (num, unsigned short, TAG_TEMPORARY, "sort_function_table");
+
       for (i = 0; i < num; i++)
-        prog->type_start[i] = prog->type_start[temp[i]];
+        ts[i] = prog->type_start[temp[i]];
+      for (i = 0; i < num; i++)
+        prog->type_start[i] = ts[i];
+      FREE (ts);
     }
 
   FREE (sorttmp);
